@@ -50,7 +50,12 @@ func (er *ErrorReader) Read(b []byte) (n int, err error) {
 }
 
 func (er *ErrorReader) Drain() {
-	_, _ = io.ReadAll(er.Reader)
+	if er.Err != nil {
+		return
+	}
+	if _, err := io.Copy(io.Discard, er.Reader); err != nil {
+		er.Err = err
+	}
 }
 
 // An ErrorWriter wraps an io.Writer with a reusable buffer for small allocations
